@@ -1,4 +1,5 @@
 SPECIFICATION Spec
 CONSTANT Deviations <- DevSet
+CONSTANT Cap = 10000
 INVARIANT Emit
 CHECK_DEADLOCK FALSE
